@@ -276,7 +276,9 @@ def impl(case):
                 perr = 'not a JSONP call: %r' % txt[:60]
         out.append({'status': r.code, 'exc': type(r.exc).__name__ if r.exc else None, 'ctype': ctype, 'parsed': parsed, 'parse_error': perr,
                     'body_is_input': (body == (case['value'][1].encode('utf8') if isinstance(case['value'], list) and case['value'][0] in ('s', 'b') else None)),
-                    'has_table': '<table' in txt, 'best': best, 'body_head': txt[:120]})
+                    'has_table': '<table' in txt, 'n_html_close': txt.count('</html>'), 'n_html_open': txt.count('<html'),
+                    'after_close': len(txt.split('</html>', 1)[1].strip()) if '</html>' in txt else 0,
+                    'best': best, 'body_head': txt[:120]})
     return out
 
 
@@ -321,6 +323,9 @@ def oracle(case, obs):
                 if want_html:
                     if o['ctype'] != 'text/html' or not o['has_table']:
                         return ('%s: HTML was asked for, got %s' % (what, o['ctype']), 'table')
+                    if o['n_html_open'] != 1 or o['n_html_close'] != 1 or o['after_close']:
+                        return ('%s: the page is not ONE HTML document (%d <html, %d </html>, %d characters after the end): an '
+                                'earlier response is inside it' % (what, o['n_html_open'], o['n_html_close'], o['after_close']), 'table-page')
                 else:
                     if o['ctype'] != 'application/json' or o['parse_error']:
                         return ('%s: expected JSON, got %s %s' % (what, o['ctype'], o['parse_error'] or ''), 'json')
